@@ -7,6 +7,7 @@
 use re::math::float::f32 as backend;
 use re::math::point::pt3;
 use re::render::raster::{scan, ScreenPt};
+use re::math::vec::{vec3, Vec3};
 use re::render::tex::{uv, SamplerRepeatPot, Texture};
 use re::util::buf::Buf2;
 
@@ -131,12 +132,35 @@ pub fn tx(smp: &str, dw: u32, dh: u32, u: f32, v: f32) -> String {
     format!("{},{}", t >> 32, t & 0xFFFF_FFFF)
 }
 
+/// Angle wrapping (math/angle.rs:262 `Angle::wrap`, built on the back end's `rem_euclid`; the method only
+/// exists with an fp feature): bits of the wrapped angle in radians.
+pub fn wrap(a: f32, min: f32, max: f32) -> String {
+    #[cfg(any(feature = "std", feature = "libm", feature = "mm"))]
+    {
+        use re::math::angle::rads;
+        hf(rads(a).wrap(rads(min), rads(max)).to_rads())
+    }
+    #[cfg(not(any(feature = "std", feature = "libm", feature = "mm")))]
+    {
+        let _ = (a, min, max);
+        "na".into()
+    }
+}
+
+/// Normalisation (math/vec.rs:139 `Vector::normalize`, built on the back end's `recip_sqrt`).
+pub fn norm(x: f32, y: f32, z: f32) -> String {
+    let v: Vec3 = vec3(x, y, z);
+    let n = v.normalize();
+    format!("{} {} {}", hf(n.0[0]), hf(n.0[1]), hf(n.0[2]))
+}
+
 /// Answers one request (tokens after the op's back-end name have been stripped by the caller):
 ///   v <fn> <a> [<b>]               -> bits of the result | "na"
 ///   d <fn> <start> <count> [<b>]   -> "<fnv> <nwrong> <first wrong>": digest of canon(result) over consecutive bit patterns of a
 ///   s <fn> <start> <count> <stride> [<b>] -> results for a strided sweep, space separated bits
 ///   rh <x>                          -> "<xs.start> <xs.end> <y> <n>"
 ///   tx <rep|cl> <dw> <dh> <u> <v>   -> "<u>,<v>" | "na"
+///   wrap <a> <min> <max>            -> bits | "na";   norm <x> <y> <z> -> three bit patterns
 pub fn serve(t: &[&str]) -> String {
     match t[0] {
         "v" => {
@@ -186,6 +210,8 @@ pub fn serve(t: &[&str]) -> String {
         }
         "rh" => rh(pf(t[1])),
         "tx" => tx(t[1], t[2].parse().unwrap(), t[3].parse().unwrap(), pf(t[4]), pf(t[5])),
+        "wrap" => wrap(pf(t[1]), pf(t[2]), pf(t[3])),
+        "norm" => norm(pf(t[1]), pf(t[2]), pf(t[3])),
         "backend" => BACKEND.to_string(),
         other => format!("unknown-request:{other}"),
     }
